@@ -1,7 +1,7 @@
 #!/usr/bin/env python3
 """Re-run the checks against every kept seeded change in ISOLATION and in parallel, and refresh meta.json.
 
-    tools/refresh_parallel.py [--workers 6] [--all-checks] [--benign] [name ...]
+    tools/refresh_parallel.py [--workers 6] [--all-checks] [--benign] [--head] [name ...]
 
 /repo and /verif themselves are not touched while this runs: every worker owns a scratch git worktree of /repo
 (the change is applied there) and a scratch copy of /verif (the generated constants and the Lean build are per
@@ -34,6 +34,7 @@ def main():
         del argv[i:i + 2]
     allc = "--all-checks" in argv
     benign = "--benign" in argv
+    from_head = "--head" in argv
     base = "benign" if benign else "seeded"
     names = [a for a in argv if not a.startswith("--")] or sorted(os.listdir(os.path.join(VERIF, base)))
     names = [n for n in names if os.path.isdir(os.path.join(VERIF, base, n))]
@@ -53,8 +54,14 @@ def main():
                 print("cannot create worktree:", r.stderr)
                 return
             wts.append(wt)
-        sh(["rsync", "-a", "--exclude", ".git", "--exclude", "seeded", "--exclude", "benign", "--exclude", "evidence/replays",
-            "--exclude", "lean/Scratch", VERIF + "/", vc + "/"])
+        if from_head:
+            # the committed state of /verif (work in progress in the working tree is left out); the Lean build cache is reused
+            os.makedirs(vc)
+            subprocess.run("git -C %s archive HEAD -- . ':!seeded' ':!benign' | tar -x -C %s" % (VERIF, vc), shell=True)
+            sh(["rsync", "-a", os.path.join(VERIF, "lean", ".lake"), os.path.join(vc, "lean") + "/"])
+        else:
+            sh(["rsync", "-a", "--exclude", ".git", "--exclude", "seeded", "--exclude", "benign", "--exclude", "evidence/replays",
+                "--exclude", "lean/Scratch", VERIF + "/", vc + "/"])
         env = dict(os.environ, VERIF_REPO=wt, VERIF_NO_EVIDENCE="1", PYTHONDONTWRITEBYTECODE="1")
         env.setdefault("VERIF_SEED", "0")
         while True:
